@@ -235,12 +235,13 @@ class Report:
                 seen_known[key] = v
             else:
                 new.append(v)
-        os.makedirs(os.path.join(VERIF, 'replays', self.prop), exist_ok=True)
+        rdir = os.environ.get('VERIF_REPLAY_DIR') or os.path.join(VERIF, 'replays')
+        os.makedirs(os.path.join(rdir, self.prop), exist_ok=True)
         for key, v in seen_known.items():
             print('KNOWN-FINDING: property=%s %s' % (self.prop, describe(v)))
         for v in new:
             h = hashlib.sha1(finding_key(v).encode('utf-8', 'backslashreplace')).hexdigest()[:12]
-            path = os.path.join(VERIF, 'replays', self.prop, h + '.json')
+            path = os.path.join(rdir, self.prop, h + '.json')
             with open(path, 'w', encoding='utf-8') as f:
                 json.dump(v, f, indent=1)
             print('VIOLATION property=%s replay=%s' % (self.prop, path))
